@@ -61,7 +61,9 @@ def gen_plan(seed, tier, index):
                 ln['container'] = r.choice(['csc_array', 'csr_matrix'])
             ln['frames'] = r.randint(1, 40) if r.random() < 0.2 else ln['frames']
             x = r.random()
-            if x < 0.1:
+            if x < 0.03:
+                ln['range'] = 'huge'
+            elif x < 0.1:
                 ln['range'] = 'extreme'
             elif x < 0.2:
                 ln['range'] = 'logprob'
